@@ -1,7 +1,7 @@
 """C14 - a failing printer is contained at the value it was printing."""
 import copy
 
-from .. import core, values
+from .. import core, gens, values
 
 ID = 'C14'
 LEVEL = 'fault_enumeration'
@@ -225,7 +225,7 @@ def strategy(tier):
             st.lists(wrapped, max_size=2).map(lambda xs: ['tuple', xs]),
             st.tuples(st.sampled_from(['struct', 'ntuple', 'ns', 'odict']), ch).map(list),
             st.tuples(ch, st.sampled_from([None, 5])).map(lambda p: ['deque', p[0], p[1]]),
-            st.lists(st.tuples(st.sampled_from(['k', 'kk', 'key three']), wrapped).map(list), max_size=3, unique_by=lambda p: p[0]).map(lambda kv: ['dict', kv]),
+            gens.named_values(st, ['k', 'kk', 'key three'], wrapped, 3).map(lambda kv: ['dict', kv]),
         )
     tree = st.recursive(st.one_of(leaf, st.tuples(st.sampled_from(['fn', 'fn2', 'fn3', 'fn4', 'fn5', 'fn6', 'fn7']), tags, st.just([])).map(list)), ext, max_leaves=10)
     fault = st.tuples(st.integers(0, 12), st.sampled_from(EXCS), st.sampled_from(['before', 'after'])).map(list)
